@@ -38,7 +38,7 @@ for f in "$SRC"/*_test.go "$SRC"/demo/*_test.go "$SRC"/*/*_test.go; do
   [ -f "$f" ] || continue
   pkg=$(grep -m1 '^package ' "$f" | awk '{print $2}')
   case "$pkg" in
-    multiplex) d=internal/multiplex;; server) d=internal/server;; client) d=internal/client;; common) d=internal/common;; usermanager) d=internal/server/usermanager;; main) d=cmd/ck-client;; *) d=$(grep -rl "^package $pkg\$" --include=*.go internal cmd | head -1 | xargs dirname);;
+    multiplex) d=internal/multiplex;; server) d=internal/server;; client) d=internal/client;; common) d=internal/common;; usermanager) d=internal/server/usermanager;; main) if grep -q "internal/server\|ck-server" "$f" "$SRC/NOTES.md" 2>/dev/null && ! grep -q "cmd/ck-client" "$SRC/NOTES.md" 2>/dev/null; then d=cmd/ck-server; else d=cmd/ck-client; fi;; *) d=$(grep -rl "^package $pkg\$" --include=*.go internal cmd | head -1 | xargs dirname);;
   esac
   cp "$f" "$d/zz_seed_demo_test.go"
   tn=$(grep -oE '^func (Test[A-Za-z0-9_]+)' "$f" | awk '{print $2}' | paste -sd'|')
